@@ -39,6 +39,11 @@ pub struct SchedSpec {
     /// when set, follow this recorded trace instead of drawing
     #[serde(default)]
     pub replay: Option<Vec<u8>>,
+    /// probe-steered hand-off: probability (per mille) that a non-transactional read made from
+    /// inside a transaction body (reported by the instrumented STM) is followed by a hand-off —
+    /// the reading thread is withheld while the others run in long bursts
+    #[serde(default)]
+    pub steer_pm: u16,
 }
 
 #[derive(Clone, Debug, Default)]
@@ -57,6 +62,8 @@ pub struct SchedOut {
     pub hash: u64,
     /// multi-candidate decisions won by each task id
     pub per_task: Vec<u32>,
+    /// hand-offs triggered by the plain-read probe
+    pub steered_handoffs: u64,
 }
 
 pub struct SimScheduler {
@@ -69,6 +76,9 @@ pub struct SimScheduler {
     change_points: Vec<u32>,
     rr_last: usize,
     handoff_own: u32,
+    /// (task id withheld after a probe, decisions left)
+    withhold: Option<(usize, u32)>,
+    last_steered: usize,
 }
 
 impl SimScheduler {
@@ -92,12 +102,40 @@ impl SimScheduler {
                 change_points,
                 rr_last: 0,
                 handoff_own: 0,
+                withhold: None,
+                last_steered: 0,
             },
             out,
         )
     }
 
     fn publish(&mut self) {}
+
+    /// Probe-steered hand-off. Returns Some(()) and sets `last_steered` (an index into `tasks`)
+    /// when the decision is taken here.
+    fn steered(&mut self, probe: bool, cur: Option<usize>, runnable: &[usize], tasks: &[&Task], is_yielding: bool, o: &mut SchedOut) -> Option<()> {
+        if probe && self.spec.steer_pm > 0 && self.withhold.is_none() {
+            if let Some(c) = cur {
+                if self.rng.below(1000) < self.spec.steer_pm as usize {
+                    self.withhold = Some((c, 4000));
+                    o.steered_handoffs += 1;
+                }
+            }
+        }
+        let (w, left) = self.withhold?;
+        let others: Vec<usize> = runnable.iter().copied().filter(|&i| usize::from(tasks[i].id()) != w).collect();
+        if others.is_empty() || left == 0 {
+            self.withhold = None;
+            return None;
+        }
+        self.withhold = Some((w, left - 1));
+        let keep = cur.and_then(|c| others.iter().copied().find(|&i| usize::from(tasks[i].id()) == c));
+        self.last_steered = match keep {
+            Some(i) if !is_yielding && self.rng.below(1000) < 970 => i,
+            _ => others[self.rng.below(others.len())],
+        };
+        Some(())
+    }
 
     fn prio_of(&mut self, id: usize) -> u64 {
         while self.prio.len() <= id {
@@ -132,6 +170,7 @@ impl Scheduler for SimScheduler {
         o.multi_decisions += 1;
         let step = o.multi_decisions as u32;
 
+        let probe = fast_stm::verif::take_steer();
         let chosen: usize = if let Some(tr) = &self.spec.replay {
             // ---- replay
             let want = tr.get(self.replay_pos).copied();
@@ -159,6 +198,8 @@ impl Scheduler for SimScheduler {
                 parked[self.rng.below(parked.len())]
             } else if runnable.len() == 1 {
                 runnable[0]
+            } else if !fair && self.steered(probe, cur, &runnable, tasks, is_yielding, &mut o).is_some() {
+                self.last_steered
             } else if fair {
                 // round robin over task ids
                 let ids: Vec<usize> = runnable.iter().map(|&i| usize::from(tasks[i].id())).collect();
